@@ -133,3 +133,49 @@ pub fn inscription_entry_roundtrip(
     InscriptionEntry::load(<V as redb::Value>::from_bytes(&bytes)),
   )
 }
+
+// ---- command line (C21-C24) --------------------------------------------------
+
+/// Parses and runs an `ord` command line in this process, printing the
+/// command's output to stdout like `ord::main` does. Returns the exit code.
+pub fn run_cli(args: Vec<String>) -> i32 {
+  let args = match Arguments::try_parse_from(args) {
+    Ok(args) => args,
+    Err(err) => {
+      eprintln!("error: {err}");
+      return 2;
+    }
+  };
+
+  let format = args.options.format;
+
+  match args.run() {
+    Err(err) => {
+      eprintln!("error: {err}");
+
+      if let SnafuError::Anyhow { err } = err {
+        for (i, err) in err.chain().skip(1).enumerate() {
+          if i == 0 {
+            eprintln!();
+            eprintln!("because:");
+          }
+
+          eprintln!("- {err}");
+        }
+      }
+
+      gracefully_shut_down_indexer();
+
+      1
+    }
+    Ok(output) => {
+      if let Some(output) = output {
+        output.print(format.unwrap_or_default());
+      }
+
+      gracefully_shut_down_indexer();
+
+      0
+    }
+  }
+}
